@@ -44,6 +44,7 @@ func Design(dir, design string) error {
 			{filepath.Join("http", svc, "client"), "client"},
 			{filepath.Join("grpc", svc, "server"), "grpcserver"},
 			{filepath.Join("grpc", svc, "client"), "grpcclient"},
+			{filepath.Join("grpc", svc, "pb"), "pb"}, // Register<Svc>Server / New<Svc>Client of the protoc output
 		} {
 			p := filepath.Join(gen, tr.sub)
 			if _, err := os.Stat(p); err != nil {
